@@ -112,6 +112,7 @@ def generate(rng, index, tier):
     ids = cat['ids']
     nthreads = rng.pick([1, 1, 2, 3])
     threads = []
+    empty_elsewhere = []
     tids = [300 + ti * 11 + rng.randrange(0, 5) for ti in range(nthreads)]
     for ti in range(nthreads):
         tid = tids[ti]
@@ -169,6 +170,25 @@ def generate(rng, index, tier):
                     if op_.get('k') == 'sys' and op_.get('name') in ('DBG_DYLD_TIMING_DLCLOSE', 'DBG_DYLD_TIMING_DLSYM'):
                         op_['s'][1] = h_
                 focus.append({'k': 'sys', 'name': 'DBG_DYLD_TIMING_DLCLOSE', 's': [0, h_, 0, 0], 'e': [0, 0, 0, 0], 'in': []})
+            if focus and focus[-1].get('k') == 'sys' and not focus[-1].get('noend') and rng.chance(0.15):
+                # another operation of the same family overlaps the focus without nesting: it starts before and ends inside
+                fam_ = worlds.catalog()['fam'].get(name)
+                cands = [n_ for n_ in cat['names'] if worlds.catalog()['fam'].get(n_) == fam_ and n_ not in worlds.SPECIAL and n_ not in worlds.DYLD_STRING_ARG and n_ != name]
+                if cands:
+                    xn = rng.pick(cands)
+                    sx, ex = domains.draw(rng, xn)
+                    w_ = focus[-1]
+                    w_['in'] = list(w_.get('in', []))
+                    w_['in'].insert(rng.randrange(len(w_['in']) + 1), {'k': 'raw', 'id': ids[xn], 'q': 2, 'a': list(ex)})
+                    focus.insert(len(focus) - 1, {'k': 'sys', 'name': xn, 's': sx, 'e': ex, 'in': [], 'noend': True})
+            if name in worlds.DYLD_STRING_ARG and focus and rng.chance(0.2):
+                # the string the focus names is announced again with no text (released), by this thread inside a call and by
+                # another thread
+                sid_ = next((op_['id'] for op_ in focus if op_.get('k') == 'gstr'), None)
+                if sid_ is not None:
+                    s_, e_ = domains.draw(rng, 'BSC_read')
+                    focus.append({'k': 'sys', 'name': 'BSC_read', 's': s_, 'e': e_, 'in': [{'k': 'gstr', 'id': sid_, 'dbgid': 0, 'text': ''}]})
+                    empty_elsewhere.append(sid_)
             pre = worlds.gen_ops(rng, ctx, rng.randint(0, 2), {'bsd': 2, 'path': 2, 'tracedom': 2, 'mach': 1, 'perf': 1}, depth=1)
             post = worlds.gen_ops(rng, ctx, rng.randint(0, 2), {'bsd': 2, 'dyld': 1, 'tracedom': 2, 'mach': 1}, depth=1)
             if rng.chance(0.3) and pre:
@@ -180,6 +200,8 @@ def generate(rng, index, tier):
                 ops = pre + focus + post
         else:
             ops = worlds.gen_ops(rng, ctx, rng.randint(1, 4), {'bsd': 2, 'path': 2, 'tracedom': 3, 'dyld': 1, 'perf': 1, 'mach': 1}, depth=1)
+            for sid_ in empty_elsewhere:
+                ops.insert(rng.randrange(len(ops) + 1), {'k': 'gstr', 'id': sid_, 'dbgid': 0, 'text': ''})
         threads.append({'tid': tid, 'ops': _ascii(ops)})
     per = kernel.expand_threads(threads, ids)
     table_spec = 'bundled'
